@@ -21,6 +21,10 @@ CHECKS = {
    text="Fault enumeration of the cancellation point: for each generated base case (planner round-robin over 33 single-threaded geometric planners, world, query, knobs, seed) the first solve() is cancelled at EVERY termination-condition evaluation index k = 0..39 (quick) / 0..151 (thorough) plus 8 geometrically spaced larger k beyond the first solution, each in its own forked child (plain and ASan/UBSan builds), followed by a generated history of continued solves, getPlannerData, clear / clearQuery / new problem definition. Judged after every op: bounded return (<=10^4 further PTC evaluations, <=10^6 further validity checks), status truth against what the problem definition holds, no empty / wrongly rooted / goal-missing path, no crash or sanitizer report, no free of a non-live state, zero live states at process exit (ledger over the real allocState/freeState), continued solves never worsen the top solution, no state of the previous query in paths of the new one.",
    note="Trusted: the state ledger mix-in and the world predicate. States are accounted at process exit after static destructors (BIT*-family retention by design). Non-state memory leaks are outside the statement (LSan off). setup() twice and pdef->clearSolutionPaths() between solves are outside the quantified calls and not generated. Known findings (LazyLBTRRT, LBTRRT, BFMT resume) are listed in known_findings.json.",
    technique="deterministic simulation: enumeration of the cancellation index per base case + seeded histories, fork-per-case, ASan/UBSan + state ledger as oracles, shrinking + replay"),
+ "C04": dict(engine="plansim", cat="exploration", ref="DESIGN.md 4/C04",
+   text="Seeded search over (a-d) histories of 1-4 continued solves, cut at simulator-chosen termination-condition evaluations, of the 19 cost-aware single-threaded planners (round-robin) under path length (with/without threshold), state-cost integral, mechanical work, max-min clearance and weighted multi-objective on generated worlds: after every solve each stored solution cost is compared with the recomputed path->cost(objective) (never better; equal for eager planners), with the straight-line admissible bound, the optimized flag with isSatisfied(stored cost), and the best stored cost must not worsen; (e) generated multisets of exact / approximate / objective-satisfying solutions with many ties, minimising and maximising objectives, added one by one to a ProblemDefinition: after every add getSolutions() must be a permutation of what was added, ordered by a reference comparator written from the statement, and the top-solution accessors must agree with element 0.",
+   note="Trusted: the reference comparator and cost recomputation via PathGeometric::cost. Solution sets that mix solutions with and without a recorded objective are counted, not judged (the statement does not define 'lower cost' for such a pair). Concurrent adds to a shared problem definition are C19's surface.",
+   technique="deterministic simulation: seeded resume histories with cancellation-point fault injection + reference-model comparison of the solution set, shrinking + replay"),
  "C10": dict(engine="dssim", cat="exploration", ref="DESIGN.md 4/C10",
    text="Seeded search over op histories (add/add(vector)/remove/clear/nearest/nearestK/nearestR/list) on the real GNAT, GNAT-no-thread-safety, linear and sqrt-approx structures with swarm-chosen tree parameters, exact-tie metrics and simulator-owned pivot draws (hook H1), refined op by op against a brute-force reference model, under ASan/UBSan. Sampling, not enumeration: a clean run is evidence.",
    note="Trusted: the harness's metric functions and brute-force model (~60 lines). Assumes a single caller thread (concurrency is C19).",
@@ -59,7 +63,7 @@ def main():
         else:
             na.append(dict(property_id=pid, reason=PENDING.get(pid, "not claimed yet: the check for this property is designed (DESIGN.md 4) but not built/registered at this commit")))
     engines = [
-        dict(name="plansim", path="engines/plansim.cpp", serves_properties=["C01", "C03"],
+        dict(name="plansim", path="engines/plansim.cpp", serves_properties=["C01", "C03", "C04"],
              kind_free_text="whole real planners on generated worlds, one forked child per case, cancellation at chosen PTC evaluation, op histories"),
         dict(name="dssim", path="engines/dssim.cpp", serves_properties=["C10", "C11", "C12", "C13"],
              kind_free_text="in-process seeded op histories on the real data structures vs executable reference models"),
